@@ -41,11 +41,11 @@ def pipeline(src: str, want_census: bool = True) -> Dict[str, Any]:
             for k, node in enumerate(b.tree):
                 last = k == len(b.tree) - 1
                 if last and len(b._jump_targets) == 2:
-                    tests[str(name)] = nid(node)
+                    # the test is a bare expression, or (desugared for-loop header) an expression statement
+                    tests[str(name)] = nid(node.value) if isinstance(node, ast.Expr) else nid(node)
                 elif isinstance(node, ast.Return):
-                    rets[str(name)] = nid(node.value) if node.value is not None else 0
                     units.append(nid(node))
-                    ret_units.setdefault(str(name), []).append(nid(node))
+                    ret_units.setdefault(str(name), []).append([nid(node), nid(node.value) if node.value is not None else 0])
                 else:
                     units.append(nid(node))
             blocks[str(name)] = units
